@@ -7,6 +7,7 @@ import XmpProofs.FmtItPat
 import XmpProofs.FmtItSex
 import XmpProofs.FmtItFile
 import XmpProofs.FmtXmFile
+import XmpModel.Gen.C19Size
 /-!
 # C19 — Core-format loaders reproduce what an independent writer encoded
 
@@ -84,6 +85,21 @@ make the loader (and the model) take the first one for a ModPlug ADPCM sample. -
 theorem C19_mod_adpcm_hypothesis_needed :
     Mod.WellFormed Mod.cx { kind := 1 } ∧ Mod.read (Mod.write Mod.cx { kind := 1 }) = none :=
   Mod.wellFormed_not_sufficient
+
+/-- **Where the file size read by the MOD loader's heuristics comes from** (FlexTrax probe, Mod's Grave WOW and
+Protracker song-file detection compare `module_data.size` with sizes computed from the header; `Mod.read` uses
+`bs.length` there).  Facts generated from the working tree (tools/c19_gen_size.py, `XmpModel/Gen/C19Size.lean`):
+every public load entry point stores `module_data.size` exactly once; every store in the library is made by one of
+them and stores the size of the stream it opened — `hio_size(h)`, or, for the memory entry point, the very length
+given to `hio_open_const_mem` — never a caller-supplied advisory value (`xmp_load_module_from_file`'s `size` argument
+is documented as ignored). -/
+theorem C19_size_is_stream_length :
+    (∀ f ∈ ["xmp_load_module", "xmp_load_module_from_memory", "xmp_load_module_from_file",
+            "xmp_load_module_from_callbacks"], f ∈ Gen.loadEntryPoints) ∧
+    (∀ f ∈ Gen.loadEntryPoints, (Gen.sizeStores.filter fun st => st.2.1 == f).length = 1) ∧
+    (∀ st ∈ Gen.sizeStores, st.2.1 ∈ Gen.loadEntryPoints ∧
+      (st.2.2.1 = "hio_size(h)" ∨ (st.2.2.1 = "size" ∧ st.2.2.2 = "hio_open_const_mem(mem, size)"))) := by
+  decide
 
 /-! ## S3M -/
 
